@@ -91,6 +91,7 @@ Proof.
   destruct dbl.
   - destruct (pf b); [destruct (jvis _ _)|]; eauto.
   - destruct b as [|c r]; [congruence|].
+    destruct (if (_ || _)%bool then r else c :: r) as [|d0 dr]; [eauto|].
     destruct (parse_uint _ _); [|eauto].
     destruct (_ && _); [destruct (jvis _ _); eauto|].
     destruct (_ && _); [eauto|].
